@@ -79,11 +79,22 @@ def handler_variants(p, rng, ids):
             q = copy.deepcopy(p)
             q["eh"], q["fe"] = mode, False
             out.append(q)
-    if rc.XB[p.get("xc", "boom")] and rng.random() < .3:
+    if rc.XB[p.get("xc", "boom")] and rng.random() < .5:
         q = copy.deepcopy(p)
         q["eh"], q["fe"] = "none", True
         out.append(q)
     return out
+
+
+def fe_ordinary_loop_family():
+    """format_exceptions with enable_loop=False and a context variable named `loop` (an ordinary name then)."""
+    body = [dict(k="text", t="t1"), dict(k="mark", m=2, rl=True, w="s"), dict(k="text", t="t3")]
+    return [dict(defs={}, incs=[], body=body, eh="none", fe=True, top=[], el="off", xc="boom", route=route)
+            for route in ("context", "unicode")]
+
+
+def sig_fe_loop(p, x):
+    return "format-exceptions-with-ordinary-loop-variable:%s" % (x["got"]["res"] if x["clause"] == "res" else x["clause"])
 
 
 def check(run):
@@ -91,7 +102,9 @@ def check(run):
     maxraise = 12 if not thorough else 16
     prof = rc.profile(w=dict(expr=5, callc=4, block=2, inc=3, text=3, mark=5, ret=1, **{"try": 1, "for": 2, "with": 2, "while": 1, "if": 1}),
                       nincs=(0, 2), depth=3, p_fm=0.8, p_dm=0.8, p_amark=0.5, eh=0.0, fe=0.0, p_bad_args=0.03, p_cmark=0.4,
-                      eh_modes=["true", "false", "raise"], ieh_modes=["true", "true", "false", "raise"], xcs=["boom", "boom", "abort", "sysexit", "kbint", "stopiter"], p_inh=0.25, p_lk=0.3, npy=(0, 2), routes=["context", "context", "unicode", "render"])
+                      eh_modes=["true", "false", "raise"], ieh_modes=["true", "true", "false", "raise"], xcs=["boom", "boom", "abort", "sysexit", "kbint", "stopiter"], p_inh=0.25, p_lk=0.3, npy=(0, 2), routes=["context", "context", "unicode", "render", "render"],
+                      oes=[None, None, "utf-8", "ascii", "latin-1"], ees=["strict", "strict", "replace", "htmlentityreplace"],
+                      msgs=["ascii", "latin1", "nonlatin", "nonbmp"], p_nasrc=0.3)
     g = rc.Gen(run.rng, prof)
     n_base = 85 if not thorough else 800
     import itertools
@@ -101,13 +114,16 @@ def check(run):
         progs += handler_variants(base, run.rng, itertools.count(5000))
     # random programs with their own % try placement, includes with/without include_error_handler
     prof2 = rc.profile(w=dict(expr=5, callc=4, block=2, inc=3, **{"try": 4, "for": 2, "with": 2}), nincs=(1, 2), depth=3,
-                       eh=0.35, fe=0.1, p_fm=0.8, p_dm=0.8, p_amark=0.5, p_cmark=0.4,
-                       eh_modes=["true", "false", "raise"], ieh_modes=["true", "true", "false", "raise"], xcs=["boom", "boom", "abort", "sysexit", "kbint", "stopiter"], p_inh=0.25, p_lk=0.3, npy=(0, 2), routes=["context", "context", "unicode", "render"])
+                       eh=0.35, fe=0.2, p_fm=0.8, p_dm=0.8, p_amark=0.5, p_cmark=0.4,
+                       eh_modes=["true", "false", "raise"], ieh_modes=["true", "true", "false", "raise"], xcs=["boom", "boom", "abort", "sysexit", "kbint", "stopiter"], p_inh=0.25, p_lk=0.3, npy=(0, 2), routes=["context", "context", "unicode", "render", "render"],
+                      oes=[None, None, "utf-8", "ascii", "latin-1"], ees=["strict", "strict", "replace", "htmlentityreplace"],
+                      msgs=["ascii", "latin1", "nonlatin", "nonbmp"], p_nasrc=0.3)
     g2 = rc.Gen(run.rng, prof2)
     progs += [g2.gen_prog() for _ in range(150 if not thorough else 1600)]
     run.extra["programs"] = len(progs)
     for i in range(0, len(progs), 300):
         rc.check_batch(run, progs[i:i + 300], maxraise, "raise-%d" % (i // 300), coverage=True)
+    rc.check_batch(run, fe_ordinary_loop_family(), 2, "format-exceptions-loop-variable", signature_of=sig_fe_loop)
     acts = run.extra.get("action_coverage", {})
     for a in NEED:
         if not acts.get(a):
@@ -116,7 +132,7 @@ def check(run):
         "the planted exception (an Exception subclass, a BaseException-only class with a required constructor argument, SystemExit(3), KeyboardInterrupt or StopIteration) is raised by a context-supplied marker at its k-th invocation; % except names exactly that class",
         "error_handler / include_error_handler (on the Template or on the TemplateLookup) return True, return a false value, or raise a different exception; the caller of render / render_unicode / render_context must receive the very object (identity, args, code/payload)",
         "inheritance is one base template whose body renders the child through next.body(); named blocks across the chain (C06) and cached sections (C17) are not generated; format_exceptions only with Exception subclasses",
-        "format_exceptions: only that an error page naming the exception is produced and the stacks are balanced afterwards",
+        "format_exceptions (output_encoding None/utf-8/ascii/latin-1 x encoding_errors strict/replace/htmlentityreplace x messages and source comments with non-ASCII, non-latin-1, non-BMP characters, on Template or TemplateLookup): an error page (bytes or str per entry, in utf-8 or the configured charset) naming the exception class and carrying its message after entity unescaping; never a secondary exception",
     ]
     return {"rule": "TLC executes Render.tla for every (program, raise point) with RestoredAtHandler / PartialDiscarded / "
                     "StackDiscipline / Balanced checked in every state; the real template is rendered through render_context for "
